@@ -11,6 +11,7 @@ exon junctions, each other; records are written in GENE coordinates for every is
   excon    trypsin with trypsin_exception        (known finding D14 is classified by its signature)
   nola     rules having an alternative without look-ahead (the engine used to abort on them: fixed db08c8d)
   wide     pepsin (look-behind 2 + look-ahead 2; known finding D14b)
+  fusion   one fusion record (exonic breakpoints) + records on both partners: must_fusion_set (SpecFusion.v)
   flags    trypsin with --selenocysteine-termination and / or --w2f-reassignment (must_set_fl, SpecAlt.v)
 A missing obliged peptide that matches no signature is a VIOLATION with the input as replay.
 """
@@ -22,8 +23,8 @@ ROOT = os.path.dirname(os.path.dirname(os.path.dirname(os.path.abspath(__file__)
 
 def sizes(ctx):
     if ctx.quick:
-        return dict(core=900, excon=350, nola=120, wide=60, flags=200)
-    return dict(core=17000, excon=6000, nola=1200, wide=800, flags=4000)
+        return dict(core=900, excon=350, nola=120, wide=60, flags=200, fusion=150)
+    return dict(core=17000, excon=6000, nola=1200, wide=800, flags=4000, fusion=3000)
 
 def gen_cases(ctx):
     rng = ctx.rng
@@ -65,6 +66,12 @@ def gen_cases(ctx):
         c['runs'] = [CG.gen_run(rng, rule='trypsin', exc_on=False, sect=sect, w2f=w2f)]
         c['stream'] = 'flags'
         cases.append(c)
+    # fusion transcripts: must_fusion_set (Model/SpecFusion.v) must be in the FASTA as well
+    for i in range(n.get('fusion', 0)):
+        c = CG.gen_fusion_case(rng)
+        c['runs'] = [dict(CG.gen_run(rng, rule='trypsin', exc_on=False), fusion_must=True)]
+        c['stream'] = 'fusion'
+        cases.append(c)
     return cases
 
 def corpus_cases():
@@ -84,6 +91,11 @@ def judge(evs, violations, stats, reps=None):
         by_case[ev.ci].append(ev)
         st = ev.case.get('stream', '?').split(':')[0]
         stats['runs:' + st] += 1
+        if ev.exc and CK.is_fusion_crash(ev):
+            stats['fusion_crash'] += 1
+            violations.append({'what': 'callVariant aborts while building the fusion graph (ValueError in expand_alignments): nothing is reported',
+                               'replay_obj': CK.replay_obj(ev, 'crash'), 'no_input': False, 'finding': CK.F_FUSCRASH})
+            continue
         if ev.exc:
             violations.append({'what': 'callVariant aborted with %s: nothing is reported (%s; rule %s)' % (
                                    ev.exc['__exc__'], ev.exc.get('msg', '')[:120], ev.run['rule']),
